@@ -14,3 +14,6 @@ register_record("C2Data", {"output": "opt[bytes]", "metadata": "opt[bytes]", "id
 register_record("ServerC2Data", {"output": "opt[bytes]", "metadata": "opt[bytes]", "id": "opt[bytes]"}, "dissect.cobaltstrike.c2")
 register_record("ClientC2Data", {"output": "opt[bytes]", "metadata": "opt[bytes]", "id": "opt[bytes]"}, "dissect.cobaltstrike.c2")
 register_record("BeaconKeys", {"aes_key": "opt[bytes]", "hmac_key": "opt[bytes]", "iv": "bytes"}, "dissect.cobaltstrike.c2")
+
+register_object("XorEncodedFile", {"fh": "file", "nonce_offset": "int", "initial_nonce": "bytes", "nonced_filesize": "bytes"},
+                "dissect.cobaltstrike.xordecode")
